@@ -29,6 +29,7 @@ SUBSETS.append((1, 3, 1))
 
 class Spec(SeqSpec):
     prop = 'C11'
+    thresholds = (2, 9500)      # delete_objects / lookups of 3+ keys run over several IN batches (defaults are covered by C02/C16)
 
     def __init__(self, tier):
         self.tier = tier
